@@ -16,6 +16,7 @@
 """Some generic utility functions used by Gin."""
 
 import contextlib
+import inspect
 
 
 def augment_exception_message_and_reraise(exception, message):
@@ -25,7 +26,7 @@ def augment_exception_message_and_reraise(exception, message):
     """Acts as a proxy for an exception with an augmented message."""
     __module__ = type(exception).__module__
 
-    def __init__(self):
+    def __init__(self, *unused_args):
       pass
 
     def __getattr__(self, attr_name):
@@ -36,7 +37,24 @@ def augment_exception_message_and_reraise(exception, message):
 
   ExceptionProxy.__name__ = type(exception).__name__
 
-  proxy = ExceptionProxy()
+  try:
+    # Constructing with the original `args` keeps `args` (and whatever the
+    # class's `__new__` derives from them, e.g. for exception groups) intact.
+    proxy = ExceptionProxy(*exception.args)
+  except TypeError:
+    proxy = ExceptionProxy()
+  # Attributes stored in C-level slots or `__slots__` (`args`, `errno`, `value`,
+  # `lineno`, ...) are found on the proxy itself before `__getattr__` is ever
+  # consulted, so they have to be copied over explicitly.
+  for klass in type(exception).__mro__:
+    for name, attr in vars(klass).items():
+      if name.startswith('__'):
+        continue
+      if inspect.isgetsetdescriptor(attr) or inspect.ismemberdescriptor(attr):
+        try:
+          setattr(proxy, name, getattr(exception, name))
+        except (AttributeError, TypeError):
+          pass  # Unset on the original, or read-only.
   ExceptionProxy.__qualname__ = type(exception).__qualname__
   raise proxy.with_traceback(exception.__traceback__)
 
